@@ -134,3 +134,16 @@ def _undo_renametable_keyerror(v):
   if ctx.get("tag") != "undo" or ctx.get("exc") != "KeyError":
     return False
   return any(u and u[0] == "RenameTable" for u in (ctx.get("of_uas") or []))
+
+
+@matcher("replacetabledata_keeps_references")
+def _replacetabledata_keeps_references(v):
+  """
+  The ReplaceTableData user action drops the rows it does not name without the reference clean-up of a
+  record removal (useractions.doBulkAddOrReplace): Ref / RefList cells elsewhere - the reverse side of a
+  two-way pair included - keep naming the vanished rows.
+  """
+  ctx = v.get("context", {})
+  if not str(v.get("clause", "")).startswith("C10."):
+    return False
+  return any(u and u[0] == "ReplaceTableData" for u in (ctx.get("uas") or []))
